@@ -11,6 +11,7 @@ import ErbiumModel.Judge.C03
 import ErbiumModel.Judge.C18
 import ErbiumModel.Judge.C17
 import ErbiumModel.Judge.C02
+import ErbiumModel.Judge.C05
 /-! Line-protocol driver. stdin: `<suite> <input tokens> => <implementation observation>`;
     stdout: `<correspondence verdict> | <oracle verdict>` per line. -/
 open Erbium Util
@@ -35,6 +36,7 @@ def judge (suite : String) (inp obs : List String) : Verdict :=
   | "leasedb" => Judge.C18.judge inp obs
   | "ra" => Judge.C17.judge inp obs
   | "dhcpcfg" => Judge.C02.judge inp obs
+  | "icmp6" | "lldp" | "dhcpacc" | "toarr" | "dnssafe" | "dhcpsafe" | "ednsacc" => Judge.C05.judge suite inp obs
   | _ => badInput ("unknown-suite:" ++ suite)
 
 def judgeLine (line : String) : String :=
